@@ -351,7 +351,7 @@ def jobs_for(check, mirror, rb, crate, U, jobs, tier, KNOWN_PRED):
                 c, crate, "item_definition/collection_of_component/%dcomp_%s" % (fn, "nonlist" if fl is None else "len%d" % fl),
                 lambda ex, st: setup_coll_component(ex, st, fn, fl), post_coll_component,
                 lambda i, rb: replay_itemdef("collection_of_component", i, rb), rb, models=MODELS, unwind=24, describe=common_desc, budget_s=1200,
-                min_paths=1, timeout_ms=20000, known_predicates=KNOWN_PRED, prefer=lambda inp: U.replayable_pref(inp["_x"]), max_cex=8, max_per_label=2))
+                min_paths=1, timeout_ms=20000, known_predicates=KNOWN_PRED, prefer=lambda inp: U.replayable_pref(inp["_x"]), max_cex=24, max_per_label=8))
 
     # ------------------------------------------------------------------------------------------------------------ referenced types
     def registry_models(ex, st):
